@@ -116,14 +116,14 @@ def run(ctx):
         exe = vlib.build_harness('boot_drv.cpp', vlib.build_lib(build), backend, build)
         for lam in (128, 80):
             spec = fmt([lam, 0, 0, 0, 0, 0, 0, 0, 0, ctx.seed * 10 + 3])
-            scale = 3 if not thorough else 12
+            scale = 3 if (not thorough or build == 'debug') else 12     # the unoptimised builds run the quick volume
             budget = [scale * 1, scale * 2, scale * 4]     # sequential: more batches only while a statistic is undecided
             stats = {}
             decided = False
             for bi, mult in enumerate(budget):
                 nets = []
                 for r in range(6 * mult): nets.append((fam_random(rng, 12, 60), rng.randrange(2)))
-                for r in range(2 * mult): nets.append((fam_chain(rng, 200 if not thorough else rng.choice([200, 2000])), rng.randrange(2)))
+                for r in range(2 * mult): nets.append((fam_chain(rng, 200 if (not thorough or build == 'debug') else rng.choice([200, 2000])), rng.randrange(2)))
                 nets.append((fam_notchain(rng, 50), 0))
                 for r in range(2 * mult): nets.append((fam_tree(rng, 16), rng.randrange(2)))
                 for r in range(2 * mult): nets.append((fam_fanout(rng, 20), rng.randrange(2)))
